@@ -12,7 +12,7 @@ import time
 # property -> (harness modules, harness names)
 PROPS: dict[str, dict] = {
     "C05": {"modules": ["vf.h_fail", "vf.h_shm", "vf.h_stack", "vf.h_shmclient"], "harnesses": ["shm-atexit", "fail-healthcheck", "fail-executor-loop", "fail-task-body", "fail-bridge-events", "fail-controller-run", "fullstack-C05", "shm-client-roundtrip"]},
-    "C07": {"modules": ["vf.h_xfer", "vf.h_shmclient"], "harnesses": ["data-transfers", "shm-client-roundtrip"]},
+    "C07": {"modules": ["vf.h_xfer", "vf.h_shmclient", "vf.h_comms"], "harnesses": ["data-transfers", "shm-client-roundtrip", "payload-roundtrip"]},
     "C06": {"modules": ["vf.h_comms"], "harnesses": ["ack-messaging", "retry-budget-step", "retry-when-busy", "dedup-permanent", "frame-sequences"]},
     "C11": {"modules": ["vf.h_xform"], "harnesses": ["xform-copy-rename", "xform-dedup-fuse", "xform-split-expand", "xform-symnames", "xform-cutnames"]},
     "C14": {"modules": ["vf.h_names"], "harnesses": ["fluent-names", "fluent-operands"]},
@@ -27,7 +27,7 @@ PROPS: dict[str, dict] = {
     "C02": {"modules": ["vf.h_ctrl", "vf.h_worker", "vf.h_stack"], "harnesses": ["ctrl-C02", "worker-wakeup", "act-step", "notify-step", "fullstack-C02"]},
     "C03": {"modules": ["vf.h_ctrl", "vf.h_stack"], "harnesses": ["ctrl-C03", "plan-step", "act-step", "notify-step", "migrate-step", "fullstack-C03"]},
     "C04": {"modules": ["vf.h_ctrl"], "harnesses": ["ctrl-C04", "plan-step", "build-assignment-step", "fetch-step"]},
-    "C17": {"modules": ["vf.h_wire", "vf.h_comms", "vf.h_wire2"], "harnesses": ["shm-wire-smt", "frame-sequences", "wire-pickle-json", "wire-cross-process"]},
+    "C17": {"modules": ["vf.h_wire", "vf.h_comms", "vf.h_wire2"], "harnesses": ["shm-wire-smt", "frame-sequences", "payload-roundtrip", "wire-pickle-json", "wire-cross-process"]},
     "C08": {"modules": ["vf.h_shm"], "harnesses": ["shm-step", "shm-step-preempt", "shm-server-dispatch", "shm-init"]},
     "C09": {"modules": ["vf.h_shm", "vf.h_shmclient"], "harnesses": ["shm-step-bytes", "shm-evict-liveness", "shm-client-roundtrip"], "cpu_quick": 16 * 600.0},
 }
